@@ -51,7 +51,9 @@ def ensure(name, flavour, defines=()):
     with build.Lock("h-" + os.path.basename(exe)):
         if os.path.exists(exe) and os.path.exists(stamp) and open(stamp).read() == want:
             return exe
-        rto = os.path.join(OUT, "%s.%s.%d.o" % (spec["rt"], flavour, os.getpid()))
+        # private to this (harness, flavour, defines, process): builds of different harnesses run
+        # concurrently in one process and must not share (and unlink) one runtime object
+        rto = "%s.rt.%d.o" % (exe, os.getpid())
         cmd = [CXX, "-std=c++17", "-g", "-I" + HDIR] + spec["rtflags"] + ["-c", os.path.join(HDIR, spec["rt"]), "-o", rto]
         r = subprocess.run(cmd, stdout=subprocess.PIPE, stderr=subprocess.STDOUT, text=True)
         if r.returncode != 0:
